@@ -17,7 +17,7 @@ def cfg(name, names, vals, maxobj, depth, clock, limit, ops, faults, script, inv
     s += ["INVARIANT %s" % i for i in inv]
     s += ["PROPERTY %s" % p for p in props]
     if export:
-        s.append("ACTION_CONSTRAINT Export")
+        s.append("ACTION_CONSTRAINT ExportSim" if name.startswith("MC_Sim") else "ACTION_CONSTRAINT Export")
     s.append("CHECK_DEADLOCK FALSE")
     open(name, "w").write("\n".join(s) + "\n")
 
